@@ -285,7 +285,7 @@ def controller(args):
     known = findings.load(pid)
     absorbed, unlisted = {}, []
     for violation in tot["violations"]:
-        key = findings.classify(known, violation)
+        key = findings.classify(known, violation, getattr(mod, 'PREDICATES', {}))
         if key is None:
             unlisted.append(violation)
         else:
@@ -397,7 +397,8 @@ def replay(args):
                       "violations": ctx.violations}, indent=1))
     from verif import findings
     known = findings.load(pid)
-    bad = [v for v in ctx.violations if findings.classify(known, v) is None]
+    bad = [v for v in ctx.violations
+           if findings.classify(known, v, getattr(mod, 'PREDICATES', {})) is None]
     if bad:
         print("VIOLATION property={} replay={}".format(pid, args.replay))
         return 1
